@@ -100,19 +100,29 @@ Section Attrs.
   Definition add_word (cond : bool) (w v : bytes) : bytes :=
     if cond && negb (has_rel_token v w) then v ++ [32] ++ w else v.
 
-  (* first loop: returns (tmpAttrs, noFollowFound, noReferrerFound, targetBlankFound) *)
-  Definition link_pass1 (is_a addNoFollow addNoReferrer addTargetBlank : bool) (attrs : list attr)
+  (* first loop: returns (tmpAttrs, noFollowFound, noReferrerFound, targetBlankFound); the three
+     flags are threaded through the iteration *)
+  Fixpoint link_pass1 (is_a addNoFollow addNoReferrer addTargetBlank : bool) (attrs : list attr) (nf nr tb : bool)
     : list attr * bool * bool * bool :=
-    fold_left (fun st a =>
-      let '(acc, nf, nr, tb) := st in
+    match attrs with
+    | [] => ([], nf, nr, tb)
+    | a :: rest =>
       if key_is (B"rel") a && (addNoFollow || addNoReferrer) then
         let v := add_word addNoReferrer (B"noreferrer") (add_word addNoFollow (B"nofollow") (aval a)) in
-        (acc ++ [(akey a, v)], addNoFollow, addNoReferrer, tb)
+        let '(r, nf', nr', tb') := link_pass1 is_a addNoFollow addNoReferrer addTargetBlank rest addNoFollow addNoReferrer tb in
+        ((akey a, v) :: r, nf', nr', tb')
       else if is_a && key_is (B"target") a then
         let tb1 := tb || beqb (aval a) (B"_blank") in
-        if addTargetBlank && negb tb1 then (acc ++ [(akey a, B"_blank")], nf, nr, true)
-        else (acc ++ [a], nf, nr, tb1)
-      else (acc ++ [a], nf, nr, tb)) attrs ([], false, false, false).
+        if addTargetBlank && negb tb1 then
+          let '(r, nf', nr', tb') := link_pass1 is_a addNoFollow addNoReferrer addTargetBlank rest nf nr true in
+          ((akey a, B"_blank") :: r, nf', nr', tb')
+        else
+          let '(r, nf', nr', tb') := link_pass1 is_a addNoFollow addNoReferrer addTargetBlank rest nf nr tb1 in
+          (a :: r, nf', nr', tb')
+      else
+        let '(r, nf', nr', tb') := link_pass1 is_a addNoFollow addNoReferrer addTargetBlank rest nf nr tb in
+        (a :: r, nf', nr', tb')
+    end.
 
   Definition noopener_pass (attrs : list attr) : list attr :=
     let has_rel := existsb (key_is (B"rel")) attrs in
@@ -131,7 +141,7 @@ Section Attrs.
         let addNoFollow := requireNoFollow p || (ext && requireNoFollowFQ p) in
         let addNoReferrer := requireNoReferrer p || (ext && requireNoReferrerFQ p) in
         let addTB := ext && addTargetBlank p in
-        let '(tmp, nf, nr, tb) := link_pass1 is_a addNoFollow addNoReferrer addTB attrs in
+        let '(tmp, nf, nr, tb) := link_pass1 is_a addNoFollow addNoReferrer addTB attrs false false false in
         let attrs1 := if nf || nr || tb then tmp else attrs in
         let attrs2 :=
           if (addNoFollow && negb nf) || (addNoReferrer && negb nr) then
